@@ -12,7 +12,7 @@ Theorem C02_accept_authorised :
   forall verify recover addr_of_pk eth_sender c s t s',
   ante verify recover addr_of_pk eth_sender repaired c s t = Ok s' ->
   Forall2 (Authorised verify recover addr_of_pk eth_sender c s t) (signers t) (t_slots t).
-Proof. intros until s'. apply accept_authorised. reflexivity. Qed.
+Proof. exact accept_authorised_repaired. Qed.
 Print Assumptions C02_accept_authorised.
 
 (* the same for ANY setting of the two flags, under the guard [sound_for] (both repairs present, or
@@ -52,8 +52,13 @@ Print Assumptions C02_accept_authorised_refuted_cosigner.
    ten of cosmos-sdk v0.47.6 known to continue; ValidateBasic, SetPubKey, SigGasConsume, SigVerification and
    IncrementSequence are all present, in this order. *)
 Theorem C02_whole_chain_continues : chain_ok c02_chain c02_returns c02_gen_errors = true.
-Proof. vm_compute. reflexivity. Qed.
+Proof. exact whole_chain_continues. Qed.
 Print Assumptions C02_whole_chain_continues.
+(* the functions the model was written from are the ones audited (fingerprints), and nothing in /repo
+   besides SetPubKeyDecorator writes account keys / sequences / records *)
+Theorem C02_audited_code_pinned : audited_code_pinned c02_fingerprints c02_account_writers = true.
+Proof. exact audited_code_is_pinned. Qed.
+Print Assumptions C02_audited_code_pinned.
 (* what that buys: in a chain none of whose decorators accepts without calling next, an accepted
    transaction went through EVERY decorator (in particular the four authentication steps) *)
 Theorem C02_chain_accept_runs_every_decorator :
@@ -153,6 +158,44 @@ Theorem C02_chk_sound :
 Proof. exact chk_sound. Qed.
 Print Assumptions C02_chk_sound.
 
+(* the same statement under the name asked for: the spec checker accepts every run of the repaired model *)
+Theorem C02_checker_accepts_model_runs :
+  forall T g init l, NoDup (map fst init) ->
+  seq_room (state_of init) (Z.of_nat (List.length l)) -> id_consistent (map fst l) ->
+  case_clauses (mkHist g T (match l with (t, _) :: _ =>
+                              class_of (ante (t_verify T) (t_recover T) (t_addr_of_pk T) (t_eth_sender T) repaired (mkCtx 0 g) (state_of init) t)
+                            | [] => -1 end) None init (model_trace T g init l)) = [].
+Proof. exact c02_checker_accepts_model_runs. Qed.
+Print Assumptions C02_checker_accepts_model_runs.
+
+(* ---- histories: ANY interleaving of accepted / rejected transactions of any number of accounts and of
+   account creations, every variant of the code.  A transaction accepted at one position is not accepted at
+   any later position ... *)
+Theorem C02_never_accepted_twice :
+  forall verify recover addr_of_pk eth_sender v c s pre t mid,
+  acc_room s (Z.of_nat (List.length pre) + (1 + Z.of_nat (List.length mid))) ->
+  Z.of_nat (List.length pre) + (1 + Z.of_nat (List.length mid)) < two64 ->
+  is_ok (ante verify recover addr_of_pk eth_sender v c (run verify recover addr_of_pk eth_sender v c s pre) t) = true ->
+  is_ok (ante verify recover addr_of_pk eth_sender v c (run verify recover addr_of_pk eth_sender v c s (pre ++ OpTx t :: mid)) t) = false.
+Proof. exact never_accepted_twice. Qed.
+Print Assumptions C02_never_accepted_twice.
+(* ... and per account the sequence number is exactly the number of accepted transactions naming it as
+   signer: strictly increasing on each of them, untouched by everything else (account number never changes) *)
+Theorem C02_sequence_counts_accepted :
+  forall verify recover addr_of_pk eth_sender v c ops s a acc,
+  get_acc s a = Some acc -> acc_room s (Z.of_nat (List.length ops)) ->
+  exists acc', get_acc (run verify recover addr_of_pk eth_sender v c s ops) a = Some acc' /\
+    a_seq acc' = a_seq acc + accepted_for verify recover addr_of_pk eth_sender v c s ops a /\ a_num acc' = a_num acc.
+Proof. exact sequence_counts_accepted. Qed.
+Print Assumptions C02_sequence_counts_accepted.
+Example C02_nonvacuous_history :
+  acc_room w_state (Z.of_nat (List.length h_ops)) /\
+  accepted_for e_verify e_recover w_addr_of_pk w_eth_sender repaired w_ctx w_state h_ops 200 = 1 /\
+  accepted_for e_verify e_recover w_addr_of_pk w_eth_sender repaired w_ctx w_state h_ops 100 = 1 /\
+  run e_verify e_recover w_addr_of_pk w_eth_sender repaired w_ctx w_state h_ops
+    = [(100, mkAcc (Some (Secp 1)) 1 5); (200, mkAcc (Some (Secp 200)) 4 6); (300, mkAcc None 0 9)].
+Proof. exact ex_history. Qed.
+
 (* ---- "authorised EXACTLY that transaction": what each signing scheme covers.
    Key path (DIRECT / LEGACY_AMINO_JSON): the whole signed content.  Hypothesis stated: a signature
    verifies for one document only. *)
@@ -228,11 +271,11 @@ Print Assumptions C02_replay_unbounded_refuted.
 Example C02_nonvacuous_key : forall v,   (* ordinary DIRECT transaction by the key on record: accepted by every variant *)
   sound_for v e_honest = true /\
   ante e_verify e_recover w_addr_of_pk w_eth_sender v w_ctx w_state e_honest = Ok [(100, mkAcc None 0 5); (200, mkAcc (Some (Secp 200)) 4 6)].
-Proof. intros v. split; [destruct v as [[] [] [] []]; reflexivity|apply ex_honest_accepted]. Qed.
+Proof. exact ex_nonvacuous_key. Qed.
 Example C02_nonvacuous_raw_eth :         (* honest raw Ethereum tx of an eth-style first-time signer, foreign key attached: repaired code accepts *)
   sound_for repaired e_raw_honest = true /\
   ante e_verify e_recover w_addr_of_pk w_eth_sender repaired w_ctx w_state e_raw_honest = Ok [(100, mkAcc (Some (Secp 1)) 1 5); (200, mkAcc (Some (Secp 200)) 3 6)].
-Proof. split; [reflexivity|exact ex_raw_honest_accepted]. Qed.
+Proof. exact ex_nonvacuous_raw_eth. Qed.
 Example C02_nonvacuous_eip712 :
   ante e_verify e_recover w_addr_of_pk w_eth_sender repaired w_ctx w_state e_eip712 = Ok [(100, mkAcc (Some (Secp 1)) 1 5); (200, mkAcc (Some (Secp 200)) 3 6)].
 Proof. exact ex_eip712_accepted. Qed.
